@@ -204,9 +204,10 @@ def run_task(task, prop, tier, seed, timeout):
             task.crashes.append(dict(kind=kind, cfg=open_case[0], case=open_case[1], rc=rc, stderr=tail))
         if sum(1 for x in task.crashes if x["kind"] == "hang") >= 2:
             break  # two confirmed hangs in one shard are witness enough; do not spend hours on the rest of the shard
-        if task.corpus_spec or attempt > 40:
-            if attempt > 40:
-                task.inconclusive.append(f"{task.label}: more than 40 crashes, giving up on this shard")
+        max_restarts = 6 if tier == "quick" else 24  # per shard, i.e. ~100 / ~400 crash witnesses per run: the verdict is clear long before
+        if task.corpus_spec or attempt > max_restarts:
+            if attempt > max_restarts:
+                task.inconclusive.append(f"{task.label}: more than {max_restarts} crashes, giving up on this shard")
             break
         resume = open_case
     task.wall = time.time() - t0
